@@ -14,9 +14,13 @@
    check on the merged message; the signature check is symbolic), tied to the code by the driver's
    request-object matrix.  Embedded signed objects with symbolic cryptography (token: JWS valid / forged / alg
    none, bare JSON, JWE around any of them): embedded_verify, instantiated for session.BackChannelLogoutRequest
-   and tied to the code by the signed-object matrix.  The other embedded signed objects (AccessTokenResponse,
-   id_token_hint, the request object of oauth2 / oidc AuthorizationRequest) and the opaque kinds are decided by
-   the driver's oracle on the real code only. *)
+   and tied to the code by the signed-object matrix.  The ID Token inside oidc.AuthorizationResponse /
+   oidc.AccessTokenResponse: verify_id_token for a token whose signature verifies (MsgRules.v verify_id_token,
+   oidc_authzresp_verify_idt, oidc_tokenresp_verify_idt; the left-half hash is an environment function), with the
+   two bindings code <-> c_hash and access_token <-> at_hash as two independent rule lists, tied to the code by
+   the full truth table of the driver (hash_tables).  The other embedded signed objects (forged / unsigned ID
+   Tokens, id_token_hint, the request object of oauth2 / oidc AuthorizationRequest) and the opaque kinds are
+   decided by the driver's oracle on the real code only. *)
 From Coq Require Import String.
 From Verif Require Import Lib.Base Lib.PyStr Lib.MsgSchema Gen.Schema
   Model.Msg Model.MsgKinds Model.MsgRules Model.MsgCheck Proofs.Msg_proofs Proofs.MsgTable_proofs Proofs.MsgRules_proofs.
@@ -228,6 +232,59 @@ Theorem C11_EndSessionRequest_accepts_only :
 Proof. exact endsession_accepts_only. Qed.
 Print Assumptions C11_EndSessionRequest_accepts_only.
 
+(* ---- oidc.AuthorizationResponse with an ID Token: code <-> c_hash and access_token <-> at_hash ----
+   verify_id_token(check_hash=True) as oidc.AuthorizationResponse.verify calls it; lh = the left-half hash
+   (environment), hash_bits alg = the width that goes with the token's signing algorithm.
+   An accepted response that carries an ID Token carries one whose signature verified; the verified token is
+   what is stored under the marker key; and the two bindings hold INDEPENDENTLY of each other: a code in the
+   response is the code the token's c_hash names AND an access token in the response is the one its at_hash
+   names - a response with both has to satisfy both. *)
+Theorem C11_rules_AuthorizationResponse_hashes :
+  forall lh issuers c ic now kw t m m',
+  oidc_authzresp_verify_idt lh issuers c ic now kw t m = Ok (true, m') -> has "id_token" m = true ->
+  exists alg p o, t = TJws SigValid alg p /\ construct ic p = Ok o
+    /\ m' = aset verified_id_token (VObj o) (clear_verified m)
+    /\ authzresp_verify c kw m = Ok tt /\ idtoken_verify ic now kw o = Ok tt
+    /\ all_hold (c_hash_rule lh alg (clear_verified m) o) = true
+    /\ all_hold (at_hash_rule lh alg (clear_verified m) o) = true
+    /\ (has "code" m = true ->
+        exists v, get "code" m = Some (VStr v) /\ get "c_hash" o = Some (VStr (lh (hash_bits alg) v)))
+    /\ (has "access_token" m = true ->
+        exists v, get "access_token" m = Some (VStr v) /\ get "at_hash" o = Some (VStr (lh (hash_bits alg) v))).
+Proof. exact authzresp_idt_hashes. Qed.
+Print Assumptions C11_rules_AuthorizationResponse_hashes.
+
+(* verify_id_token inside the modelled fragment (signature verifies, textual code / access_token, modelled
+   keywords and algorithm): accepted EXACTLY when the algorithm policy, the issuer check, the construction of
+   the IdToken, IdToken.verify and - with check_hash - each of the two hash rules hold *)
+Theorem C11_verify_id_token_iff :
+  forall lh issuers ic now ch kw alg p m o s,
+  idt_kw_modelled kw = true -> hash_typed m = true -> get "id_token" m = Some (VStr s) ->
+  hash_alg_modelled alg = true ->
+  (verify_id_token lh issuers ic now ch kw (TJws SigValid alg p) m = Ok o <->
+   idt_alg_allowed kw alg = Ok tt /\ idt_issuer_known issuers p = Ok tt /\ construct ic p = Ok o
+   /\ idtoken_verify ic now kw o = Ok tt
+   /\ (ch = true -> all_hold (at_hash_rule lh alg m o) = true /\ all_hold (c_hash_rule lh alg m o) = true)).
+Proof. exact verify_id_token_iff. Qed.
+Print Assumptions C11_verify_id_token_iff.
+
+(* what one hash rule says *)
+Theorem C11_hash_rule :
+  forall lh alg param claim bad m idt,
+  all_hold (hash_rule lh alg param claim bad m idt) = true ->
+  (has param m = true -> has claim idt = true)
+  /\ (forall v, get param m = Some (VStr v) -> get claim idt = Some (VStr (lh (hash_bits alg) v))).
+Proof. exact hash_rule_holds. Qed.
+Print Assumptions C11_hash_rule.
+
+(* oidc.AccessTokenResponse.verify calls verify_id_token without check_hash: no hash rule applies to the token
+   response, its answer does not depend on the hash function *)
+Theorem C11_AccessTokenResponse_no_hash_rule :
+  forall lh lh' issuers c ic now kw t m,
+  oidc_tokenresp_verify_idt lh issuers c ic now kw t m = oidc_tokenresp_verify_idt lh' issuers c ic now kw t m.
+Proof. exact tokenresp_idt_no_hash_rule. Qed.
+Print Assumptions C11_AccessTokenResponse_no_hash_rule.
+
 (* ---- non-vacuity ---- *)
 Definition ex_class : pystr := PS "idpyoidc.message.oidc.AuthorizationRequest".
 Definition ex_ok : msg :=
@@ -331,3 +388,55 @@ Example C11_logout_token_nonvacuous :
   | _, _ => False
   end.
 Proof. vm_compute. repeat split; reflexivity. Qed.
+
+(* the hybrid response `code id_token token` over the regenerated table, with a toy hash table: both hashes right
+   is accepted and the verified token stored; a right at_hash does not make up for a c_hash of another code or a
+   missing one, nor a right c_hash for a wrong / missing at_hash; with only one of the two parameters in the
+   response only that binding is asked for; the token response asks for neither *)
+Definition azr_class : pystr := PS "idpyoidc.message.oidc.AuthorizationResponse".
+Definition atr_class : pystr := PS "idpyoidc.message.oidc.AccessTokenResponse".
+Definition idt_class : pystr := PS "idpyoidc.message.oidc.IdToken".
+Definition hx_tbl : list (pystr * pystr * pystr) :=
+  [(PS "256", PS "CODE", PS "h256-code"); (PS "256", PS "TOKEN", PS "h256-token");
+   (PS "384", PS "CODE", PS "h384-code"); (PS "384", PS "TOKEN", PS "h384-token")].
+Definition hx_claims (c_hash at_hash : option string) : msg :=
+  ([(PS "iss", VStr (PS "https://op.example")); (PS "sub", VStr (PS "s")); (PS "aud", VList [VStr (PS "c")]);
+   (PS "exp", VInt 1700000600); (PS "iat", VInt 1700000000)]
+  ++ match c_hash with Some h => [(PS "c_hash", VStr (PS h))] | None => [] end
+  ++ match at_hash with Some h => [(PS "at_hash", VStr (PS h))] | None => [] end)%list.
+Definition hx_resp : msg :=
+  [(PS "state", VStr (PS "st")); (PS "code", VStr (PS "CODE")); (PS "access_token", VStr (PS "TOKEN"));
+   (PS "token_type", VStr (PS "Bearer")); (PS "id_token", VStr (PS "eyJ.eyJ.sig"))].
+Definition hx_kw : msg := [(PS "iss", VStr (PS "https://op.example")); (PS "client_id", VStr (PS "c"))].
+Definition outcome (r : res (bool * msg)) : res bool := match r with Ok (b, _) => Ok b | Err e => Err e | Unmodelled => Unmodelled end.
+Example C11_hashes_nonvacuous :
+  match find_class azr_class all_classes, find_class atr_class all_classes, find_class idt_class all_classes with
+  | Some c, Some tc, Some ic =>
+      let run alg ch ah m :=
+        oidc_authzresp_verify_idt (lhash_of hx_tbl) [PS "https://op.example"] c ic 1700000000 hx_kw
+          (TJws SigValid (PS alg) (hx_claims ch ah)) m in
+      let trun ch ah :=
+        oidc_tokenresp_verify_idt (lhash_of hx_tbl) [PS "https://op.example"] tc ic 1700000000 hx_kw
+          (TJws SigValid (PS "RS256") (hx_claims ch ah)) (adel (PS "code") hx_resp) in
+      (exists o, construct ic (hx_claims (Some "h256-code") (Some "h256-token")) = Ok o
+                 /\ run "RS256" (Some "h256-code") (Some "h256-token") hx_resp
+                    = Ok (true, (hx_resp ++ [(verified_id_token, VObj o)])%list))
+      /\ outcome (run "RS256" (Some "h256-OTHER") (Some "h256-token") hx_resp) = Err ECHash
+      /\ outcome (run "RS256" None (Some "h256-token") hx_resp) = Err EMissingRequired
+      /\ outcome (run "RS256" (Some "h256-code") (Some "h256-OTHER") hx_resp) = Err EAtHash
+      /\ outcome (run "RS256" (Some "h256-code") None hx_resp) = Err EMissingRequired
+      (* the hash width follows the signing algorithm *)
+      /\ outcome (run "ES384" (Some "h384-code") (Some "h384-token") hx_resp) = Ok true
+      /\ outcome (run "RS384" (Some "h256-code") (Some "h384-token") hx_resp) = Err ECHash
+      (* one parameter only: one binding only *)
+      /\ outcome (run "RS256" (Some "h256-code") None (adel (PS "access_token") hx_resp)) = Ok true
+      /\ outcome (run "RS256" None (Some "h256-token") (adel (PS "code") hx_resp)) = Ok true
+      /\ outcome (run "RS256" (Some "h256-OTHER") None (adel (PS "access_token") hx_resp)) = Err ECHash
+      (* forged / unsigned tokens are outside this model *)
+      /\ oidc_authzresp_verify_idt (lhash_of hx_tbl) [PS "https://op.example"] c ic 1700000000 hx_kw
+           (TJws SigBad (PS "RS256") (hx_claims None None)) hx_resp = Unmodelled
+      (* the token response: no hash rule *)
+      /\ outcome (trun None (Some "h256-OTHER")) = Ok true /\ outcome (trun None None) = Ok true
+  | _, _, _ => False
+  end.
+Proof. vm_compute. repeat split; try reflexivity. eexists. split; reflexivity. Qed.
